@@ -25,7 +25,7 @@ RULE = ('seeded schedules: IMU stamps uniform / jittered / with 1..3 data gaps, 
         ' Round 5: measurement tables whose rows are not in time order; with_altitude as numpy.bool_ in 40 % of the schedules; sensors listed in any order.')
 ASSUMPTIONS = ['termination is decided as bounded progress: while-header visits <= 2 (increments + epochs in span) + 4 (sys.monitoring), '
                'never by wall clock', 'two streams of the same measurement class are outside the documented interface and not generated']
-REQUIRED_OBS = ['reruns_with_same_objects', 'schedules_with_permuted_tables', 'schedules_with_tiny_record', 'schedules_with_unsorted_measurement_rows', 'runs_with_small_integrator_capacity', 'schedules_with_independent_triad_models', 'runs_completed', 'loop_iterations', 'integrate_events', 'predict_events', 'hit_events', 'correct_events',
+REQUIRED_OBS = ['prelude_runs_on_a_shorter_span', 'reruns_with_same_objects', 'schedules_with_permuted_tables', 'schedules_with_tiny_record', 'schedules_with_unsorted_measurement_rows', 'runs_with_small_integrator_capacity', 'schedules_with_independent_triad_models', 'runs_completed', 'loop_iterations', 'integrate_events', 'predict_events', 'hit_events', 'correct_events',
                 'schedules_with_clusters', 'schedules_with_gaps', 'schedules_without_measurements', 'epochs_inside_total',
                 'time_step_below_imu_interval', 'offline_checks']
 REQUIRED_CLASSES = {'all': ['uniform', 'jitter', 'gaps']}
@@ -93,6 +93,17 @@ def run_case(case):
     loop = LOOP['m']
     d = S['describe']
     obs = {}
+    import copy
+    frozen = []
+    for m_ in S['sensors']:
+        f_ = copy.copy(m_)
+        f_.data = m_.data.copy()
+        frozen.append(f_)
+    if case['seed'] % 3 == 2 and len(S['increments']) >= 12:
+        # Round 6: a first call on the first part of the record, then the whole record, with the SAME measurement / model objects
+        k_ = int(len(S['increments']) * (0.25 + 0.35 * ((case['seed'] // 3) % 5) / 4))
+        run_filter(dict(S, increments=S['increments'].iloc[:k_], describe=dict(S['describe'])), loop)
+        obs['prelude_runs_on_a_shorter_span'] = 1
     r, ev, err = run_filter(S, loop)
     out = []
     if err is not None:
@@ -117,7 +128,7 @@ def run_case(case):
     if r is not None:
         obs['runs_completed'] = 1
         obs['offline_checks'] = 1
-        out.extend(seqmodels.check_feedback(ev, r, S['increments'], S['sensors'], S['start'], loop))
+        out.extend(seqmodels.check_feedback(ev, r, S['increments'], frozen, S['start'], loop))
         if case['seed'] % 3 == 0 and not out:
             # the same measurement and model objects handed to the filter again: the second run must consume every increment and sample
             # exactly once too (a cursor / memo kept inside the objects only shows then)
@@ -127,7 +138,7 @@ def run_case(case):
                 out.append(dict(err2, message='[second run with the same objects] ' + err2['message']))
             else:
                 out.extend(dict(v, message='[second run with the same objects] ' + v['message'])
-                           for v in seqmodels.check_feedback(ev2, r2, S['increments'], S['sensors'], S['start'], loop))
+                           for v in seqmodels.check_feedback(ev2, r2, S['increments'], frozen, S['start'], loop))
                 if not np.array_equal(r['trajectory'].values, r2['trajectory'].values) or not np.array_equal(r['trajectory_sd'].values, r2['trajectory_sd'].values):
                     out.append(vio('rerun_differs', 'a second run with the same measurement / model objects returns a different trajectory or sd table'))
     # interleaving signature: how many measurement epochs fall into each sampling interval (run-length coded), the relation of the covariance
